@@ -179,6 +179,30 @@ def main(argv):
                                                    'yes' if m.get('verified', {}).get('ok') else 'NO',
                                                    ', '.join(m.get('caught_by', [])) or 'MISSED'))
         return 0
+    if c == 'design-table':
+        rows = ['| id | property | file changed | verified | caught by | first detection |', '|----|----------|--------------|----------|-----------|-----------------|']
+        n = caught = aswas = 0
+        for d in sorted(os.listdir(SEEDED)):
+            if os.path.exists(meta_path(d)):
+                m = load_meta(d)
+                n += 1
+                caught += bool(m.get('caught_by'))
+                aswas += m.get('first_detection', '').startswith('as-was')
+                rows.append('| %s | %s | %s | %s | %s | %s |' % (
+                    d, m['property'], ', '.join(x.replace('stix2/', '') for x in m.get('files_changed', [])),
+                    'yes' if m.get('verified', {}).get('ok') else 'NO', ', '.join(m.get('caught_by', [])) or '**missed**',
+                    m.get('first_detection', '')))
+        rows.append('')
+        rows.append('Totals: %d seeded changes kept, %d caught by the checks as they stand now, %d of them by the check exactly as it stood '
+                    'when the change arrived.' % (n, caught, aswas))
+        path = os.path.join(HERE, 'DESIGN.md')
+        txt = open(path).read()
+        a, b = '<!-- SEEDED-TABLE-BEGIN -->', '<!-- SEEDED-TABLE-END -->'
+        if a in txt:
+            txt = txt[:txt.index(a) + len(a)] + '\n' + '\n'.join(rows) + '\n' + txt[txt.index(b):]
+            open(path, 'w').write(txt)
+            print('table updated: %d rows' % n)
+        return 0
     print(__doc__)
     return 2
 
